@@ -46,7 +46,18 @@ fn gen_set(rng: &mut Rng, universe: u64, max: usize) -> Vec<u32> {
         2 => rng.range(0, 3) as usize,
         _ => rng.range(0, max as u64) as usize,
     };
-    (0..n).map(|_| rng.below(universe) as u32).collect()
+    (0..n).map(|_| gid(rng, universe)).collect()
+}
+
+/// an id of the universe; in the full u32 universe often one of the border values
+fn gid(rng: &mut Rng, universe: u64) -> u32 {
+    if universe > 10_000_000 && rng.chance(1, 4) {
+        return *rng.pick(&[
+            0u32, 1, 255, 256, 65_535, 65_536, 9_999_999, 10_000_000, 16_777_215, 16_777_216, 2_147_483_647, 2_147_483_648,
+            4_294_967_294, 4_294_967_295,
+        ]);
+    }
+    rng.below(universe) as u32
 }
 
 fn c12(rng: &mut Rng, idx: usize) -> Case {
@@ -55,16 +66,24 @@ fn c12(rng: &mut Rng, idx: usize) -> Case {
         let mut c = Case::new("ancestor-queries");
         let with_roots = rng.chance(1, 2);
         let mt = *rng.pick(&[4usize, 8, 14]);
-        let (f, shape) = gen_facts(rng, &DagOpts { max_terms: mt, with_roots, max_recs: 1 });
+        let (mut f, shape) = gen_facts(rng, &DagOpts { max_terms: mt, with_roots, max_recs: 1 });
         c.stat(&format!("shape_{shape:?}"), 1);
         let (multi, _) = facts_stats(&f, &mut c);
-        facts_to_prog(rng, &f, &ProgOpts { shuffle: true, failing_permille: 0, build_defaults: with_roots, slot: 0 }, &mut c);
+        if with_roots && rng.chance(1, 2) {
+            // binary route: terms flagged obsolete / replaced keep their links
+            let flags = gen_flags(rng, &mut f);
+            c.stat("obsolete_or_replaced_terms", flags.len() as u64);
+            let fv = 2 + rng.below(2) as u8;
+            facts_to_fops(rng, &f, &flags, fv, 0, true, &mut c);
+        } else {
+            facts_to_prog(rng, &f, &ProgOpts { shuffle: true, failing_permille: 0, build_defaults: with_roots, slot: 0 }, &mut c);
+        }
         c.op("anc2 0".to_string());
         c.nontrivial = multi > 0;
         return c;
     }
     let mut c = Case::new("group-program");
-    let universe = *rng.pick(&[6u64, 40, 100, 10_000_000]);
+    let universe = *rng.pick(&[6u64, 40, 100, 10_000_000, 4_294_967_296]);
     let hows = ["vec", "vecu32", "set", "iter"];
     // two or three sets from random constructors
     let relation = rng.below(6);
@@ -92,7 +111,7 @@ fn c12(rng: &mut Rng, idx: usize) -> Case {
     c.op("gnew s".to_string());
     let nins = rng.range(0, 45);
     for _ in 0..nins {
-        let x = if rng.chance(1, 3) && !a.is_empty() { *rng.pick(&a) } else { rng.below(universe) as u32 };
+        let x = if rng.chance(1, 3) && !a.is_empty() { *rng.pick(&a) } else { gid(rng, universe) };
         c.op(format!("gins s {}", x));
     }
     c.op("gshow s".to_string());
@@ -111,7 +130,7 @@ fn c12(rng: &mut Rng, idx: usize) -> Case {
     c.op("gshow w1".to_string());
     c.op("gshow w2".to_string());
     for _ in 0..4 {
-        let x = if rng.chance(1, 2) && !a.is_empty() { *rng.pick(&a) } else { rng.below(universe) as u32 };
+        let x = if rng.chance(1, 2) && !a.is_empty() { *rng.pick(&a) } else { gid(rng, universe) };
         c.op(format!("gadd a {} p", x));
         c.op("gshow p".to_string());
         c.op(format!("gorid b {} q", x));
